@@ -86,5 +86,11 @@ def run(ctx, tier):
     ctx.rule('C11.R3', 'C11: the active-print flag is written only by __init__, initialize and on_event', floor=3)
     rules_c11.event_rule(ctx, make_interp(ctx.model))
     rules_c11.writers_rule(ctx)
-    ctx.assume('the composition of the exit sequence itself is decided by C03/C06')
+    # what the hook contributes is the exit sequence: held to the composition and value rules of C03
+    from . import rules_c03
+    from .pathfacts import S_OID as _S
+    ctx.rule('C03.R1', 'C03: exit composition - pending, exit script, G92 E, then Z before XY iff rising / after iff falling / absent iff equal', floor=6)
+    ctx.rule('C03.R4', 'C03: every word of the exit commands is the logical value of the tracked native position', floor=6)
+    rules_c03.exit_rules(ctx, make_interp(ctx.model), {('fld', _S, 'excluding'): [True]}, 'exitExcludedRegion (script hook)')
+    ctx.assume('the deferred-command part of the exit sequence is decided by C06')
     ctx.assume('OctoPrint calls the script hook before it fires the print-done event (ordering is outside the repository)')
